@@ -122,6 +122,9 @@ def run_shard(ctx):
             si, sf = cfg.scratch()
             body = LW.gen_single_mention(ctx.rng, si, sf, TL.EXTRA_INT[1:] + TL.EXTRA_INT[:1], TL.EXTRA_FLOAT, nm)
             if body is not None: ctx.count('directed_single_mention')
+        if body is None and ctx.rng.chance(0.08):
+            nm = (lambda x: TL.NAMES[x]) if cfg.aliases else (lambda x: 'REG[%d]' % x)
+            body = LW.gen_timed_jump(ctx.rng, nm); ctx.count('directed_timed_jumps')
         if body is None:
             body = gen_body(ctx.rng, env, sentinel='ins_101();', max_depth=ctx.rng.pick([1, 2, 3]), max_stmts=ctx.rng.pick([3, 6, 10]), expr_depth=ctx.rng.pick([1, 2, 3, 4]))
         LW.reconcile_mentions(ctx, body)
